@@ -116,7 +116,7 @@ def job_sliceoff(item):
         S['vacuity']['invalid slice reached'] = True
         if off is None or not (lb <= off <= rb):
             acc = []; SY.lazy_null_constraints(ex.doc, acc, 'Bool')
-            sat, m = eng.check(ex.pc + acc)
+            sat, m = SY.check_pinned(eng, ex.pc, acc)
             if sat:
                 d = SY.tagged(ex, ex.doc, m, 'Bool')
                 S.cand('c12:slice-error-offset', f'{expr}: the invalid-slice error points at offset {off}, outside the offending slice [{lb}..{rb}]', {'expr': expr, 'doc': d}, {'op': 'search', 'expr': expr, 'doc': d}, expected={'offset_within': [lb, rb]})
@@ -167,7 +167,7 @@ def job_compiled(item):
             d = None
             if hasattr(ex, 'doc'):
                 acc = []; SY.lazy_null_constraints(ex.doc, acc)
-                sat, m = eng.check(ex.pc + acc)
+                sat, m = SY.check_pinned(eng, ex.pc, acc)
                 if sat: d = SY.tagged(ex, ex.doc, m)
             S.cand('c12:public-path-error', f'{expr!r}: {bad}', {'expr': expr, 'doc': d}, {'op': 'search', 'expr': expr, 'doc': d}, expected={'expression': expr})
     n, rest = eng.explore(body, on_path, max_paths=2000)
